@@ -287,7 +287,15 @@ def generate_special_types(model: model.LSPModel, types: TypeData) -> None:
                     '#[serde(rename_all = "camelCase")]',
                     "pub struct SelectionRange {",
                 ]
-                for property in type_def.properties:
+                # Its own properties as declared, then the ones it gets from
+                # `extends` and `mixins`.
+                own = list(type_def.properties)
+                inherited = [
+                    p
+                    for p in get_extended_properties(type_def, model)
+                    if all(p.name != o.name for o in own)
+                ]
+                for property in own + inherited:
                     doc = (
                         property.documentation.splitlines(keepends=False)
                         if property.documentation
